@@ -4,7 +4,7 @@ TRANSLATORS = []
 LEAN_MODULES = ["IsoVerif.Props.C26"]
 THEOREMS = ["IsoVerif.Props.C26.C26_ids", "IsoVerif.Props.C26.C26_docs_hashed", "IsoVerif.Props.C26.C26_exact",
             "IsoVerif.Props.C26.C26_records", "IsoVerif.Props.C26.C26_same_tree", "IsoVerif.Props.C26.C26_same_partial",
-            "IsoVerif.Props.C26.C26_witness_backslash"]
+            "IsoVerif.Props.C26.C26_backslash_repaired", "IsoVerif.Props.C26.C26_witness_quote"]
 HARNESS = ("hx_printers", {"HX_ENGINE": "printers", "HX_PROP": "C26"})
 DRIVER = "drv_printers"
 # projects x {md5, sha256, md5+extra info, sha256+extra info, sha256+custom file name}
@@ -15,12 +15,12 @@ TECHNIQUE = ("Lean 4 theorems about the plumbing of operation ids through genera
 LEVEL_TEXT = ("Kernel-checked: every operation id written into an artifact names a recorded document whose hash it is, every recorded document sits under its own hash, and the documents "
               "file records exactly the referenced ids (C26_ids, C26_docs_hashed, C26_exact, C26_records; H is a parameter); the recorded (compact) text and the JavaScript value of the "
               "pretty text of query_text.ts are renderings of one selection tree (C26_same_tree) and are equal up to insignificant characters outside string literals whenever names and "
-              "strings contain no quote, backslash or line terminator (C26_same_partial); with a backslash in a string they differ (C26_witness_backslash). Tie: projects compiled in-process with "
+              "strings contain no quote, backslash or line terminator (C26_same_partial); a backslash in a string used to make them differ and no longer does since the text is escaped when embedded (C26_backslash_repaired, /repo dc59a0f); an unescaped double quote in a string still does (C26_witness_quote; not writable in an iso literal). Tie: projects compiled in-process with "
               "md5/sha256 x extra info x custom file name; the model's bytes of the artifacts and of the documents file equal the compiler's; the oracle recomputes the real digests of the recorded "
               "documents (md-5 / sha2 crates in the harness), compares the id sets, and compares each recorded document with the operation text of the non-persisted build of the same project.")
 LEVEL_NOTE = ("Trusted: Lean kernel; MD5/SHA-256 are opaque in the theorems (real digests come from the harness); serde_json's string escaping and pretty layout are hand-modelled and validated by bytes; "
               "JavaScript evaluation of the embedded single-quoted text is hand-modelled (oracle side).")
-PARTIAL = ["C26_same_statement is refuted for strings containing a backslash (the embedded operation text is evaluated by JavaScript, the recorded one is not): C26_same_partial needs plain names/strings",
+PARTIAL = ["C26_same_statement is refuted for a string holding an unescaped double quote (C26_witness_quote; the iso lexer does not produce such strings): C26_same_partial needs names/strings without quote, backslash, apostrophe and line terminators; strings with well-formed backslash escapes are covered by the oracle on the implementation only",
            "collision freedom of the hash is not assumed: two operations with one hash share an entry (C26_records states which text is recorded)"]
 ASSUMPTIONS = ["md-5 / sha2 / hex crates compute lower-case hex digests", "serde_json::to_string_pretty layout as modelled (two-space indent, `\": \"` separators)"]
 
